@@ -51,7 +51,7 @@ CHECKS = {
    note="Trusted: POSIX os.path join/normpath/abspath/dirname contracts (re-validated against posixpath on the bounded domain every run); no symlinks in a fresh destination."),
  "C16": dict(cat="proof", tech=T + ": inductive invariant over the atomic (between-yield) segments of the real gevent code" + B, ref="3/C16",
    text="Every atomic segment of qs/jobs.py / qs/qserve.py (push, pushjob, rpc_qpull before/after the yield and on GreenletExit, rpc_qfinish, rpc_qkill, shutdown, handletimeouts, dropdead), started in any state satisfying the invariant 'every known unfinished job is in exactly one place', ends in such a state; pushjob is verified against an exact transition contract that its callers use. Holds for every schedule because control changes hands only at the yield.",
-   note="Trusted: cooperative scheduling, heapq/min/random.choice/gevent contracts on abstract views. One clause (I4a after segment B) is not proved and listed in the evidence."),
+   note="Trusted: cooperative scheduling, heapq/min/random.choice/gevent contracts on abstract views. Rely of the suspended puller = closure of per-segment guarantees that are themselves obligations."),
  "C17": dict(cat="proof", tech=T + B, ref="3/C17",
    text="Proved: job order = (priority, serial) lexicographic and strict total; _mark_finished / finishjob finality and exactly-one-counter; pop returns an unfinished job of a requested channel that is minimal among candidates; add under an existing id changes nothing; shutdown re-queues only unfinished jobs. The job a *resumed* puller receives can be finished: known finding.",
    note="As C16; _preenall's iteration is assumed (its body _preenjobq is verified)."),
